@@ -3,7 +3,7 @@ LEAN_MODULES = ["Sif.Props.C06"]
 EXTRACT = [{"group": "bridge", "passes": ["bridgefacts"]}]
 FAMILIES = [
     {"name": "bridge_credit", "family": "bridge_credit", "group": "bridge", "driver": "drv_bridge",
-     "n_quick": 300, "n_thorough": 2000, "seeds_thorough": 3},
+     "n_quick": 300, "n_thorough": 1500, "seeds_thorough": 3},
 ]
 RULE = ("bridge_credit: L1 claim histories on the real keepers (ValidateBasic + ethbridge.NewHandler on a cached context written only on success): "
         "conflicting contents, late and duplicate claims, claims after finalisation, zero / negative / 2^256-1 amounts, invalid denominations, "
